@@ -486,18 +486,24 @@ def r_var_rows_rewritten(rule, root=None):
         except A.AnchorLost:
             rule.lost("ShapeBulkEval::%s" % name)
             continue
-        ws = [c for c in A.find(fn["body"], "MethodCall") if c["method"] in writes and str(A.ftxt(A.strip(c["recv"]))) in ("data", "*data")]
+        # the row is the closure's slice parameter, whatever it is called
+        data = "data"
+        for clo_ in A.find(fn["body"], "Closure"):
+            for p_ in clo_.get("inputs", clo_.get("params", [])):
+                if p_.get("k") == "PType" and str(p_.get("ty") or "").replace(" ", "").startswith("&mut[") and A.binding_name(p_["pat"]):
+                    data = A.binding_name(p_["pat"])
+        ws = [c for c in A.find(fn["body"], "MethodCall") if c["method"] in writes and str(A.ftxt(A.strip(c["recv"]))) in (data, "*" + data)]
         if not ws:
             # an explicit element loop is the same thing
-            loops = [f for f in A.find(fn["body"], "For") if "data" in str(A.ftxt(f["iter"]))]
-            lenchk = re.compile(r"!?\(?(?:\w+\.len\(\)[!=]=data\.len\(\)|data\.len\(\)[!=]=\w+\.len\(\))\)?")
+            loops = [f for f in A.find(fn["body"], "For") if data in str(A.ftxt(f["iter"]))]
+            lenchk = re.compile(r"!?\(?(?:\w+\.len\(\)[!=]=%s\.len\(\)|%s\.len\(\)[!=]=\w+\.len\(\))\)?" % (re.escape(data), re.escape(data)))
             other = [c for c in (A.enclosing_conds(fn["body"], loops[0]) or []) if not lenchk.fullmatch(c.replace(" ", "")) and not c.replace(" ", "").lstrip("!(").startswith(("let", "match"))] if loops else []
             if loops and not other:
                 rule.ok("ShapeBulkEval::%s writes every element of the row (loop)" % name, file=SHAPE, line=fn["ln"])
             else:
                 rule.bad("%s|write" % name, "ShapeBulkEval::%s must overwrite the whole variable row it is handed" % name, A.where(SHAPE, fn))
             continue
-        lenchk = re.compile(r"!?\(?(?:\w+\.len\(\)[!=]=data\.len\(\)|data\.len\(\)[!=]=\w+\.len\(\))\)?")
+        lenchk = re.compile(r"!?\(?(?:\w+\.len\(\)[!=]=%s\.len\(\)|%s\.len\(\)[!=]=\w+\.len\(\))\)?" % (re.escape(data), re.escape(data)))
         conds = [c for c in (A.enclosing_conds(fn["body"], ws[0]) or []) if not c.replace(" ", "").lstrip("!(").startswith(("let", "match")) and not lenchk.fullmatch(c.replace(" ", ""))]
         if conds:
             rule.bad("%s|conditional" % name, "ShapeBulkEval::%s rewrites the variable row only under `%s`: the row is recycled scratch, and a stale interior (an earlier array-valued variable, another shape's axis samples, +0.0 padding where -0.0 is wanted) passes any test that looks at a few elements" % (name, conds[-1][:80]), A.where(SHAPE, ws[0]))
